@@ -3,6 +3,7 @@
 package c12
 
 import (
+	"bufio"
 	"bytes"
 	"crypto/md5"
 	"crypto/sha1"
@@ -12,11 +13,14 @@ import (
 	"encoding/json"
 	"fmt"
 	"io"
+	"sort"
 	"strings"
 
 	"pault.ag/go/debian/control"
 	"pault.ag/go/debian/hashio"
 
+	"verifharness/audit"
+	"verifharness/gen"
 	"verifharness/mc"
 	"verifharness/props/reg"
 )
@@ -25,19 +29,22 @@ func init() { reg.Register(&reg.Prop{ID: "C12", Run: Run, Replay: Replay}) }
 
 // In is the replayable input of one execution. Which fields matter depends on Op.
 type In struct {
-	Op     string   `json:"op"`               // writers | readers | writer1 | reader1 | hasher | unknown | verify
-	Stream string   `json:"stream_hex"`       // the byte stream, hex
-	Chunks []int    `json:"chunks,omitempty"` // sizes of the successive Write calls / Read buffers (0 = empty write)
-	Algos  []string `json:"algos,omitempty"`  // algorithm names handed to the constructor, in this order
-	SumAt  int      `json:"sum_at"`           // Sum/Size also observed before chunk number SumAt (-1: only at the end)
-	Src    string   `json:"src,omitempty"`    // readers: delivery of the underlying reader: full | onebyte | dataeof
-	Ctor   string   `json:"ctor,omitempty"`   // unknown: constructor under test
+	Op     string   `json:"op"`                    // writers | readers | writer1 | reader1 | hasher | unknown | verify
+	Stream string   `json:"stream_hex"`            // the byte stream, hex
+	Chunks []int    `json:"chunks,omitempty"`      // sizes of the successive Write calls / Read buffers (0 = empty write)
+	Algos  []string `json:"algos,omitempty"`       // algorithm names handed to the constructor, in this order
+	SumAt  int      `json:"sum_at"`                // Sum/Size also observed before chunk number SumAt (-1: only at the end)
+	Src    string   `json:"src,omitempty"`         // readers: delivery of the underlying reader: full | onebyte | dataeof | zero-once
+	Via    string   `json:"via,omitempty"`         // how the chunks are pushed into the writer / pulled out of the reader ("" = Write / Read)
+	PatLen int      `json:"pattern_len,omitempty"` // > 0: the stream is pattern(PatLen) and stream_hex is empty (long streams)
+	Ctor   string   `json:"ctor,omitempty"`        // unknown: constructor under test
 	// verify
-	Carrier string `json:"carrier,omitempty"`   // where the entry comes from
-	Fields  string `json:"fields,omitempty"`    // which Checksums-* fields the paragraph has: 256 | 512 | both
-	Kind    string `json:"recorded,omitempty"`  // what the recorded hash is
-	Other   string `json:"other_hex,omitempty"` // the second file's content (the "different stream")
-	Entry   int    `json:"entry,omitempty"`     // which listed file is verified (0: Stream, 1: Other)
+	Carrier string `json:"carrier,omitempty"`       // where the entry comes from
+	Fields  string `json:"fields,omitempty"`        // which Checksums-* fields the paragraph has: 256 | 512 | both
+	Kind    string `json:"recorded,omitempty"`      // what the recorded hash is
+	Other   string `json:"other_hex,omitempty"`     // the second file's content (the "different stream")
+	Entry   int    `json:"entry,omitempty"`         // which listed file is verified (0: Stream, 1: Other)
+	RecText string `json:"recorded_text,omitempty"` // recorded = literal-text: the hash text itself
 }
 
 var allAlgos = []string{"md5", "sha1", "sha256", "sha512"}
@@ -83,6 +90,9 @@ func chunkFeatures(in In) []string {
 	if in.Src != "" && in.Src != "full" {
 		f = append(f, "src-"+in.Src)
 	}
+	if in.Via != "" && in.Via != "write" && in.Via != "read" {
+		f = append(f, "via-"+in.Via)
+	}
 	return f
 }
 
@@ -118,11 +128,16 @@ func observe(scen string, in In, hs []*hashio.Hasher, names []string, seen []byt
 
 // srcReader delivers the stream in one of three legal io.Reader styles.
 type srcReader struct {
-	b    []byte
-	mode string
+	b      []byte
+	mode   string
+	zeroed bool
 }
 
 func (s *srcReader) Read(p []byte) (int, error) {
+	if s.mode == "zero-once" && !s.zeroed {
+		s.zeroed = true
+		return 0, nil // legal (if discouraged): no progress, no error
+	}
 	if len(s.b) == 0 {
 		return 0, io.EOF
 	}
@@ -145,7 +160,12 @@ func (s *srcReader) Read(p []byte) (int, error) {
 }
 
 // checkHash is the oracle for the hashing half: pass-through, size and digests (also mid-stream).
-func checkHash(scen string, in In) *mc.Violation { return checkHashBytes(scen, in, unhex(in.Stream)) }
+func checkHash(scen string, in In) *mc.Violation {
+	if in.PatLen > 0 {
+		return checkHashBytes(scen, in, pattern(in.PatLen))
+	}
+	return checkHashBytes(scen, in, unhex(in.Stream))
+}
 
 // checkHashBytes: stream must be the decoding of in.Stream (the enumeration passes it along to avoid re-decoding).
 func checkHashBytes(scen string, in In, stream []byte) (v *mc.Violation) {
@@ -203,30 +223,129 @@ func checkHashInner(scen string, in In, stream []byte) *mc.Violation {
 		return mc.V(scen, "constructor", in, "no error for known algorithm names", fmt.Sprint("error: ", err), chunkFeatures(in)...)
 	}
 	if w != nil {
-		off := 0
-		for i, c := range in.Chunks {
-			if i == in.SumAt {
-				if v := observe(scen, in, hs, names, stream[:off], true); v != nil {
-					return v
+		return driveWriter(scen, in, stream, w, &sink, hs, names)
+	}
+	return driveReader(scen, in, stream, r, hs, names)
+}
+
+// hx renders bytes for a message (long streams are clipped).
+func hx(b []byte) string {
+	if len(b) > 48 {
+		return fmt.Sprintf("%x… (%d bytes)", b[:48], len(b))
+	}
+	return fmt.Sprintf("%x", b)
+}
+
+// plainReader / plainWriter hide every optional interface (WriterTo, ReaderFrom, StringWriter) of what they wrap.
+type plainReader struct{ r io.Reader }
+
+func (p plainReader) Read(b []byte) (int, error) { return p.r.Read(b) }
+
+// Ways of pushing one chunk into a writer. Every one of them is an ordinary use of an io.Writer; several reach the
+// writer through optional fast paths (io.StringWriter via io.WriteString / strings.Reader.WriteTo / bufio.Writer,
+// io.ReaderFrom via io.Copy, Write via bytes.Reader.WriteTo and bytes.Buffer.WriteTo).
+var writerVias = []string{"write", "writestring", "copy-strings-reader", "copy-bytes-reader", "copy-bytes-buffer", "copy-plain-reader", "readfrom-if-any",
+	"fprint", "bufio1-bytes", "bufio2-bytes", "bufio3-bytes", "bufio3-writestring"}
+
+func driveWriter(scen string, in In, stream []byte, w io.Writer, sink *bytes.Buffer, hs []*hashio.Hasher, names []string) *mc.Violation {
+	via := in.Via
+	if via == "" {
+		via = "write"
+	}
+	var bw *bufio.Writer
+	if strings.HasPrefix(via, "bufio") {
+		bw = bufio.NewWriterSize(w, int(via[5]-'0'))
+	}
+	push := func(p []byte) (int64, error) {
+		switch via {
+		case "write":
+			n, err := w.Write(p)
+			return int64(n), err
+		case "writestring":
+			n, err := io.WriteString(w, string(p))
+			return int64(n), err
+		case "copy-strings-reader":
+			return io.Copy(w, strings.NewReader(string(p)))
+		case "copy-bytes-reader":
+			return io.Copy(w, bytes.NewReader(p))
+		case "copy-bytes-buffer":
+			return io.Copy(w, bytes.NewBuffer(append([]byte(nil), p...)))
+		case "copy-plain-reader":
+			return io.Copy(w, plainReader{bytes.NewReader(p)})
+		case "readfrom-if-any":
+			if rf, ok := w.(io.ReaderFrom); ok {
+				return rf.ReadFrom(plainReader{bytes.NewReader(p)})
+			}
+			n, err := w.Write(p)
+			return int64(n), err
+		case "fprint":
+			n, err := fmt.Fprint(w, string(p))
+			return int64(n), err
+		case "bufio1-bytes", "bufio2-bytes", "bufio3-bytes":
+			for _, c := range p {
+				if err := bw.WriteByte(c); err != nil {
+					return 0, err
 				}
 			}
-			n, err := w.Write(stream[off : off+c])
-			if n != c || err != nil {
-				return mc.V(scen, "write-result", in, fmt.Sprintf("(%d, nil)", c), fmt.Sprintf("(%d, %v)", n, err), chunkFeatures(in)...)
-			}
-			off += c
+			return int64(len(p)), nil
+		case "bufio3-writestring":
+			n, err := bw.WriteString(string(p))
+			return int64(n), err
 		}
-		if in.SumAt == len(in.Chunks) {
-			if v := observe(scen, in, hs, names, stream, true); v != nil {
+		return 0, fmt.Errorf("harness: unknown way of writing %q", via)
+	}
+	flush := func() *mc.Violation {
+		if bw != nil {
+			if err := bw.Flush(); err != nil {
+				return mc.V(scen, "write-result", in, "Flush: nil", err.Error(), chunkFeatures(in)...)
+			}
+		}
+		return nil
+	}
+	off := 0
+	for i, c := range in.Chunks {
+		if i == in.SumAt {
+			if v := flush(); v != nil {
+				return v
+			}
+			if v := observe(scen, in, hs, names, stream[:off], true); v != nil {
 				return v
 			}
 		}
-		if in.Op != "hasher" && !bytes.Equal(sink.Bytes(), stream) {
-			return mc.V(scen, "pass-through-identical", in, fmt.Sprintf("%x", stream), fmt.Sprintf("%x", sink.Bytes()), chunkFeatures(in)...)
+		n, err := push(stream[off : off+c])
+		if n != int64(c) || err != nil {
+			return mc.V(scen, "write-result", in, fmt.Sprintf("(%d, nil)", c), fmt.Sprintf("(%d, %v)", n, err), chunkFeatures(in)...)
 		}
-		return observe(scen, in, hs, names, stream, false)
+		off += c
 	}
-	// reader side: the chunk list gives the successive buffer sizes; afterwards the rest is drained
+	if v := flush(); v != nil {
+		return v
+	}
+	if in.SumAt == len(in.Chunks) {
+		if v := observe(scen, in, hs, names, stream, true); v != nil {
+			return v
+		}
+	}
+	if in.Op != "hasher" && !bytes.Equal(sink.Bytes(), stream) {
+		return mc.V(scen, "pass-through-identical", in, hx(stream), hx(sink.Bytes()), chunkFeatures(in)...)
+	}
+	return observe(scen, in, hs, names, stream, false)
+}
+
+// Ways of pulling the stream out of a reader. "read" uses the chunk list as successive buffer sizes; the others
+// ignore it and use the standard helpers (which call Read with their own buffer sizes / through io.ReaderFrom).
+var readerVias = []string{"read", "readall", "copy-buffer", "copy-discard", "copy-plain-writer", "bufio-readstring", "readfull", "readfull-chunks"}
+
+type plainWriter struct{ w io.Writer }
+
+func (p plainWriter) Write(b []byte) (int, error) { return p.w.Write(b) }
+
+func driveReader(scen string, in In, stream []byte, r io.Reader, hs []*hashio.Hasher, names []string) *mc.Violation {
+	via := in.Via
+	if via == "" {
+		via = "read"
+	}
+	// the chunk list gives the successive buffer sizes; afterwards the rest is drained
 	got := make([]byte, 0, len(stream)+8)
 	eof := false
 	reads := 0
@@ -250,18 +369,78 @@ func checkHashInner(scen string, in In, stream []byte) *mc.Violation {
 		}
 		return nil
 	}
-	for i, c := range in.Chunks {
-		if i == in.SumAt {
-			if v := observe(scen, in, hs, names, got, true); v != nil {
+	fail := func(what string, err error) *mc.Violation {
+		return mc.V(scen, "read-result", in, what+": nil error", fmt.Sprint(err), chunkFeatures(in)...)
+	}
+	passThroughSeen := true
+	switch via {
+	case "read":
+		for i, c := range in.Chunks {
+			if i == in.SumAt {
+				if v := observe(scen, in, hs, names, got, true); v != nil {
+					return v
+				}
+			}
+			if eof {
+				continue
+			}
+			if v := doRead(c); v != nil {
 				return v
 			}
 		}
-		if eof {
-			continue
+	case "readall":
+		b, err := io.ReadAll(r)
+		if err != nil {
+			return fail("io.ReadAll", err)
 		}
-		if v := doRead(c); v != nil {
-			return v
+		got, eof = b, true
+	case "copy-buffer", "copy-plain-writer":
+		var buf bytes.Buffer
+		var err error
+		if via == "copy-buffer" {
+			_, err = io.Copy(&buf, r) // bytes.Buffer.ReadFrom
+		} else {
+			_, err = io.Copy(plainWriter{&buf}, r) // io.Copy's own 32 KiB loop
 		}
+		if err != nil {
+			return fail("io.Copy", err)
+		}
+		got, eof = buf.Bytes(), true
+	case "copy-discard":
+		n, err := io.Copy(io.Discard, r)
+		if err != nil || n != int64(len(stream)) {
+			return mc.V(scen, "read-result", in, fmt.Sprintf("io.Copy to Discard = (%d, nil)", len(stream)), fmt.Sprintf("(%d, %v)", n, err), chunkFeatures(in)...)
+		}
+		eof, passThroughSeen = true, false
+	case "bufio-readstring":
+		br := bufio.NewReaderSize(r, 16)
+		for i := 0; i <= len(stream)+1; i++ {
+			s, err := br.ReadString('a')
+			got = append(got, s...)
+			if err == io.EOF {
+				eof = true
+				break
+			}
+			if err != nil {
+				return fail("bufio.Reader.ReadString", err)
+			}
+		}
+	case "readfull":
+		buf := make([]byte, len(stream))
+		if _, err := io.ReadFull(r, buf); err != nil {
+			return fail("io.ReadFull", err)
+		}
+		got = buf
+	case "readfull-chunks":
+		for _, c := range in.Chunks {
+			buf := make([]byte, c)
+			if _, err := io.ReadFull(r, buf); err != nil {
+				return fail("io.ReadFull", err)
+			}
+			got = append(got, buf...)
+		}
+	default:
+		return mc.V(scen, "read-result", in, "a known way of reading", via, chunkFeatures(in)...)
 	}
 	for !eof && reads < 2*len(stream)+len(in.Chunks)+8 {
 		if v := doRead(7); v != nil {
@@ -271,13 +450,13 @@ func checkHashInner(scen string, in In, stream []byte) *mc.Violation {
 	if !eof {
 		return mc.V(scen, "read-result", in, "io.EOF after the stream", "no EOF", chunkFeatures(in)...)
 	}
-	if in.SumAt == len(in.Chunks) {
+	if via == "read" && in.SumAt == len(in.Chunks) {
 		if v := observe(scen, in, hs, names, got, true); v != nil {
 			return v
 		}
 	}
-	if !bytes.Equal(got, stream) {
-		return mc.V(scen, "pass-through-identical", in, fmt.Sprintf("%x", stream), fmt.Sprintf("%x", got), chunkFeatures(in)...)
+	if passThroughSeen && !bytes.Equal(got, stream) {
+		return mc.V(scen, "pass-through-identical", in, hx(stream), hx(got), chunkFeatures(in)...)
 	}
 	return observe(scen, in, hs, names, stream, false)
 }
@@ -396,7 +575,7 @@ func otherAlgo(a string) string {
 var recordedKinds = []string{"true-digest", "other-stream", "truncated-byte", "truncated-nibble", "extended", "other-algorithm", "upper-case", "non-hex"}
 
 // recorded builds the recorded hash string of the entry under test.
-func recorded(kind, algo string, target, other []byte) string {
+func recorded(kind, algo string, target, other []byte, literal string) string {
 	t := hex.EncodeToString(refDigest(algo, target))
 	switch kind {
 	case "true-digest":
@@ -415,6 +594,10 @@ func recorded(kind, algo string, target, other []byte) string {
 		return strings.ToUpper(t)
 	case "non-hex":
 		return "g" + t[1:]
+	case "literal-text":
+		if len(strings.Fields(literal)) == 1 && strings.TrimSpace(literal) == literal {
+			return literal
+		}
 	}
 	return ""
 }
@@ -615,9 +798,9 @@ func checkVerify(scen string, in In) (*mc.Violation, string) {
 			// the recorded hash of the listed entry, per field. For the selector with both fields present the
 			// statement does not say which field is preferred: both fields are damaged alike and the entry's
 			// own algorithm is that of the field its text came from.
-			recs := map[string]string{algo: recorded(in.Kind, algo, target, other)}
+			recs := map[string]string{algo: recorded(in.Kind, algo, target, other, in.RecText)}
 			if in.Carrier == "best" && in.Fields == "both" {
-				recs[otherAlgo(algo)] = recorded(in.Kind, otherAlgo(algo), target, other)
+				recs[otherAlgo(algo)] = recorded(in.Kind, otherAlgo(algo), target, other, in.RecText)
 			}
 			if recs[algo] == "" {
 				return
@@ -792,50 +975,105 @@ func lenClass(n int) string {
 type work struct {
 	stream []byte
 	chunks [][]int
+	patLen int               // > 0: stream == pattern(patLen); inputs carry the length instead of the bytes
+	vias   map[bool][]string // non-nil: ways of writing (false) / reading (true) to use instead of all
+}
+
+// reducedSel: the selections used with the non-default ways of writing / reading (which exercise plumbing that
+// does not depend on the order of many names): every single name, all four in table order and reversed, one pair.
+func reducedSel(sel []string) bool {
+	switch len(sel) {
+	case 1:
+		return true
+	case 2:
+		return sel[0] == "sha512" && sel[1] == "md5"
+	case 4:
+		return (sel[0] == "md5" && sel[1] == "sha1" && sel[2] == "sha256") || (sel[0] == "sha512" && sel[1] == "sha256" && sel[2] == "sha1")
+	}
+	return false
 }
 
 func hashScenario(r *mc.Run, name string, bounds map[string]interface{}, ws []work, ops []string, sels [][]string, srcs []string) {
+	bounds["ways_of_writing"] = strings.Join(writerVias, ", ") + " (other than write: reduced selections, observation at end/mid)"
+	bounds["ways_of_reading"] = strings.Join(readerVias, ", ") + " (other than read: reduced selections; helpers that choose their own buffer sizes once per stream); source zero-once with reduced selections"
 	r.Scenario(name, bounds, len(ws), func(i int, st *mc.Stats) bool {
 		w := ws[i]
-		sh := hex.EncodeToString(w.stream)
+		sh := ""
+		if w.patLen == 0 {
+			sh = hex.EncodeToString(w.stream)
+		}
 		for ci, ch := range w.chunks {
 			if ci%16 == 0 && r.Expired() {
 				return false
 			}
 			for _, op := range ops {
+				reader := op == "readers" || op == "reader1"
 				ss := []string{""}
-				if op == "readers" || op == "reader1" {
-					ss = srcs
+				vias := writerVias
+				if reader {
+					ss = append(append([]string(nil), srcs...), "zero-once")
+					vias = readerVias
 				}
-				for _, src := range ss {
-					for si, sel := range sels {
-						for _, at := range sumAts(ch) {
-							in := In{Op: op, Stream: sh, Chunks: ch, Algos: sel, SumAt: at, Src: src}
-							st.Evals++
-							st.Traces++
-							st.Transitions += int64(len(ch) + 1)
-							if at >= 0 {
-								st.Transitions++
+				if w.vias != nil {
+					vias = w.vias[reader]
+				}
+				for vi, via := range vias {
+					chunkFree := reader && via != "read" && via != "readfull-chunks"
+					if chunkFree && ci != 0 {
+						continue
+					}
+					for _, src := range ss {
+						for si, sel := range sels {
+							if (vi != 0 || src == "zero-once") && !reducedSel(sel) {
+								continue
 							}
-							if len(w.stream) > 0 {
-								st.Nontrivial++
+							ats := sumAts(ch)
+							if vi != 0 {
+								ats = []int{-1}
+								if !reader && len(ch) > 0 {
+									ats = []int{-1, len(ch) / 2}
+								}
 							}
-							v := checkHashBytes(name, in, w.stream)
-							if v != nil {
-								st.Violate(v)
-								st.Class(op + "/violation")
-							} else {
-								st.Class(op + "/agrees/" + lenClass(len(w.stream)))
-							}
-							if i == len(ws)*2/3 && ci == len(w.chunks)/2 && si == len(sels)*3/4 && at == len(ch)/2 && src == ss[len(ss)-1] && op == ops[0] && st.WantSample() {
-								st.Sample(in)
+							for _, at := range ats {
+								in := In{Op: op, Stream: sh, PatLen: w.patLen, Chunks: ch, Algos: sel, SumAt: at, Src: src}
+								if vi != 0 {
+									in.Via = via
+								}
+								if chunkFree {
+									in.Chunks = []int{len(w.stream)}
+								}
+								st.Evals++
+								st.Traces++
+								st.Transitions += int64(len(ch) + 1)
+								if at >= 0 {
+									st.Transitions++
+								}
+								if len(w.stream) > 0 {
+									st.Nontrivial++
+								}
+								v := checkHashBytes(name, in, w.stream)
+								cl := op
+								if vi != 0 {
+									cl += "/" + via
+								}
+								if v != nil {
+									st.Violate(v)
+									st.Class(cl + "/violation")
+								} else if vi != 0 {
+									st.Class(cl + "/agrees")
+								} else {
+									st.Class(cl + "/agrees/" + lenClass(len(w.stream)))
+								}
+								if i == len(ws)*2/3 && ci == len(w.chunks)/2 && (si == len(sels)*3/4 && vi == 0 || vi == 2 && len(sel) == 4 && sel[0] == "md5") && at == len(ch)/2 && src == ss[len(ss)/2] && op == ops[0] && st.WantSample() {
+									st.Sample(in)
+								}
 							}
 						}
 					}
 				}
 			}
 		}
-		st.States++ // one state per stream; its chunkings/selections/observation points are the transitions
+		st.States++ // one state per stream; its chunkings/selections/observation points/ways are the transitions
 		return true
 	})
 }
@@ -891,11 +1129,18 @@ func Run(r *mc.Run) {
 	shortWork := func(L int) ([]work, map[string]interface{}) {
 		var short []work
 		for _, s := range shortStreams(L) {
-			short = append(short, work{s, withEmpty(compositions(len(s)))})
+			short = append(short, work{stream: s, chunks: withEmpty(compositions(len(s)))})
 		}
 		for n := L + 1; n <= 8; n++ {
-			short = append(short, work{pattern(n), compositions(n)})
-			short = append(short, work{bytes.Repeat([]byte{0xFF}, n), compositions(n)})
+			short = append(short, work{stream: pattern(n), chunks: compositions(n)})
+			short = append(short, work{stream: bytes.Repeat([]byte{0xFF}, n), chunks: compositions(n)})
+		}
+		for _, t := range auditTexts() { // alphabet audit: literals a change introduced, as stream contents
+			cs := [][]int{{len(t)}, {0, len(t)}, fixedChunks(len(t), 1), fixedChunks(len(t), 3)}
+			if len(t) <= 6 {
+				cs = withEmpty(compositions(len(t)))
+			}
+			short = append(short, work{stream: []byte(t), chunks: cs})
 		}
 		nch := 0
 		for _, w := range short {
@@ -924,14 +1169,79 @@ func Run(r *mc.Run) {
 		if n <= 64 {
 			cs[5] = []int{n, 0}
 		}
-		long = append(long, work{s, cs})
+		long = append(long, work{stream: s, chunks: cs})
 	}
 	hashScenario(r, "long-streams", map[string]interface{}{"lengths": longLens, "chunk_sizes": "1, 3, 64, whole, empty+whole, 64 with an empty write after the first block",
 		"algorithm_selections": len(sels), "ops": "writers, readers (3 deliveries), writer1, reader1, hasher"}, long, []string{"writers", "readers"}, sels, srcs)
 	hashScenario(r, "long-streams-singular", map[string]interface{}{"lengths": longLens, "algorithm_selections": "each single name"}, long, []string{"writer1", "reader1", "hasher"}, single, srcs)
 
+	// alphabet audit: integers a change introduced (n-1, n, n+1 and, for n <= 24, 2^n-1, 2^n, 2^n+1) as stream
+	// lengths and chunk sizes. Nothing on the unchanged tree.
+	if lens := auditLens(); len(lens) > 0 {
+		four := [][]string{{"md5", "sha1", "sha256", "sha512"}}
+		var small, large []work
+		for _, n := range lens {
+			cs := [][]int{{n}, {0, n}}
+			if n > 1 {
+				cs = append(cs, []int{n - 1, 1}, []int{1, n - 1}, []int{n / 2, n - n/2})
+			}
+			for _, c := range lens {
+				if c < n && n/c <= 4096 {
+					cs = append(cs, fixedChunks(n, c))
+				}
+			}
+			if n <= 1<<16 {
+				if n/64 <= 4096 && n > 64 {
+					cs = append(cs, fixedChunks(n, 64))
+				}
+				small = append(small, work{stream: pattern(n), patLen: n, chunks: cs})
+			} else {
+				large = append(large, work{stream: pattern(n), patLen: n, chunks: cs, vias: map[bool][]string{
+					false: {"write", "writestring", "copy-strings-reader", "copy-bytes-reader", "copy-plain-reader", "bufio3-writestring"},
+					true:  {"read", "readall", "copy-buffer", "copy-discard"}}})
+			}
+		}
+		b := map[string]interface{}{"lengths": lens, "chunkings": "whole, empty+whole, (n-1,1), (1,n-1), halves, pieces of every other audited size, 64"}
+		if len(small) > 0 {
+			hashScenario(r, "audit-lengths", b, small, []string{"writers", "readers", "writer1", "reader1", "hasher"}, append(append([][]string(nil), single...), four...), []string{"full", "dataeof"})
+		}
+		if len(large) > 0 {
+			hashScenario(r, "audit-lengths-large", map[string]interface{}{"lengths": lens, "selection": "all four names"}, large, []string{"writers", "readers"}, four, []string{"full"})
+		}
+	}
+
 	unknownScenario(r)
 	verifyScenarios(r)
+}
+
+// auditTexts: string literals a change introduced into the code (none on the unchanged tree).
+func auditTexts() []string { return gen.AuditStrings(nil, 6) }
+
+// auditLens: for every new integer literal n: n-1, n, n+1, and for n <= 24 also 2^n-1, 2^n, 2^n+1 (within 1..2^24+1).
+func auditLens() []int {
+	seen := map[int]bool{}
+	var out []int
+	add := func(v int64) {
+		if v >= 1 && v <= 1<<24+1 && !seen[int(v)] {
+			seen[int(v)] = true
+			out = append(out, int(v))
+		}
+	}
+	for _, v := range gen.AuditInts(1, 1<<24+1, 9) {
+		add(v)
+	}
+	for _, n := range audit.Get().Ints {
+		if n >= 1 && n <= 24 {
+			add(1<<uint(n) - 1)
+			add(1 << uint(n))
+			add(1<<uint(n) + 1)
+		}
+		if len(out) >= 15 {
+			break
+		}
+	}
+	sort.Ints(out)
+	return out
 }
 
 func minInt(a, b int) int {
@@ -944,6 +1254,13 @@ func minInt(a, b int) int {
 var unknownNames = []string{"", "MD5", "Sha256", "SHA512", "sha-256", "sha224", "sha384", "sha512/256", "sha3-256", "sha2560", "sha25", "sha256 ", " sha1", "crc32", "md4", "sha1\n"}
 
 func unknownScenario(r *mc.Run) {
+	unknownNames := unknownNames
+	for _, t := range gen.AuditStrings(nil, 8) { // alphabet audit: a name a change special-cases is still not one of the four
+		if !knownName(t) {
+			unknownNames = append(unknownNames, t, strings.ToUpper(t))
+		}
+	}
+	unknownNames = gen.Dedup(unknownNames)
 	// valid contexts of length 0..2 into which the unknown name is inserted at every position
 	var ctx [][]string
 	for _, s := range selections() {
@@ -1008,6 +1325,27 @@ func verifyScenarios(r *mc.Run) {
 		y[n-1] ^= 1
 		pairs = append(pairs, pair{s, y, [][]int{fixedChunks(n, 1), fixedChunks(n, 3), fixedChunks(n, 64), {n}, {0, n}}})
 	}
+	// alphabet audit: pattern streams of the audited lengths, and the new string literals as recorded hash texts
+	for _, n := range auditLens() {
+		if n <= 1<<16 {
+			s := pattern(n)
+			y := append([]byte(nil), s...)
+			y[n-1] ^= 1
+			cs := [][]int{{n}, {0, n}, {n / 2, n - n/2}}
+			if n > 64 {
+				cs = append(cs, fixedChunks(n, 64))
+			}
+			pairs = append(pairs, pair{s, y, cs})
+		}
+	}
+	type kindText struct{ kind, text string }
+	var kinds []kindText
+	for _, k := range recordedKinds {
+		kinds = append(kinds, kindText{k, ""})
+	}
+	for _, t := range gen.AuditStrings(nil, 8) {
+		kinds = append(kinds, kindText{"literal-text", t})
+	}
 	type cf struct{ carrier, fields string }
 	var cfs []cf
 	for _, c := range parsedCarriers {
@@ -1027,7 +1365,8 @@ func verifyScenarios(r *mc.Run) {
 		func(i int, st *mc.Stats) bool {
 			p := pairs[i]
 			for _, c := range cfs {
-				for _, kind := range recordedKinds {
+				for _, kt := range kinds {
+					kind := kt.kind
 					for entry := 0; entry < 2; entry++ {
 						chunkings := p.chunks
 						if entry == 1 {
@@ -1036,7 +1375,7 @@ func verifyScenarios(r *mc.Run) {
 						}
 						for _, ch := range chunkings {
 							in := In{Op: "verify", Stream: hex.EncodeToString(p.x), Other: hex.EncodeToString(p.y), Chunks: ch, SumAt: -1,
-								Carrier: c.carrier, Fields: c.fields, Kind: kind, Entry: entry}
+								Carrier: c.carrier, Fields: c.fields, Kind: kind, Entry: entry, RecText: kt.text}
 							v, class := checkVerify("verifier-parsed-entries", in)
 							if class == "" {
 								continue
